@@ -50,13 +50,19 @@ def openedBy (before after : Reg) : List Entry := after.entries.filter (fun e =>
 /-- sealing accepts the values of this `open_session` (`struct.pack` ranges, the 255-byte server-id guard): outside this,
 `_seal_session_token` raises *after* the registry insertion — excluded from the property's quantifier -/
 def SealFits (cfg : Cfg) (now : Nat) : Action → Prop
-  | .open _ ttl => sealOk cfg now (now + ttl.getD cfg.defaultTtl) = true
+  | .open _ ttl => openSealOk cfg now ttl = true
+  | _ => True
+
+/-- the session this `open_session` registers is not born expired (per-call TTL not negative) -/
+def TtlNonneg (cfg : Cfg) : Action → Prop
+  | .open _ ttl => 0 ≤ effTtl ttl cfg.defaultTtl
   | _ => True
 
 /-- side conditions of one history step: sealing in range, and the 96-bit session-id space is not exhausted -/
 def OpOK {Wire : Type} (cfg : Cfg) (s : Sys Wire) : SysOp → Prop
   | .call _ _ script _ =>
     (∀ a ∈ script, SealFits cfg s.W.env.now a) ∧ s.W.env.sidCtr + script.length ≤ 256 ^ 12 ∧
+      (∀ a ∈ script, TtlNonneg cfg a) ∧
       (∀ a ∈ script, a.isApi = true)   -- nothing ends a session behind the client's back (else: `C27_no_orphan`, `C27_close_clears`)
   | _ => True
 
